@@ -59,6 +59,11 @@ def build(tag):
         elif tag == "rel":
             rc, out = sh(["cargo", "build", "--release", "--bin", "vp-worker"], cwd=HARNESS)
             cmd = [os.path.join(HARNESS, "target/release/vp-worker")]
+        elif tag == "odd":
+            # release build whose allocator serves every byte buffer at an odd address
+            env = dict(ENV_BASE, CARGO_TARGET_DIR=os.path.join(HARNESS, "target-odd"))
+            rc, out = sh(["cargo", "build", "--release", "--features", "odd_alloc", "--bin", "vp-worker"], cwd=HARNESS, env=env)
+            cmd = [os.path.join(HARNESS, "target-odd/release/vp-worker")]
         elif tag == "miri":
             env = dict(ENV_BASE, MIRIFLAGS="-Zmiri-disable-isolation")
             # build once (also builds the sysroot on first use); run with --selfcheck-less no-op
@@ -197,7 +202,7 @@ def _drain(pipe, shard, which):
             shard.err_tail = (shard.err_tail + chunk)[-4000:]
 
 
-STALL_S = {"dbg": 40, "rel": 40, "asan": 120, "tsan": 120, "miri": 600}
+STALL_S = {"dbg": 40, "rel": 40, "odd": 40, "asan": 120, "tsan": 120, "miri": 600}
 
 
 def run_shards(tag, prop, tier, seed, rundir, nshards=None, scale=None, time_cap=None, watchdog=600,
@@ -415,6 +420,7 @@ def is_known_open(known, prop, signature):
 # ---------------------------------------------------------------------------------------------
 # per-property plans: which builds / extra monitors each tier uses (DESIGN section 5)
 
+ODD_ALLOC_PROPS = {"C01", "C02", "C05", "C10", "C20"}
 MIRI_QUICK = {"C02": 1.0, "C09": 1.0, "C13": 1.0, "C18": 1.0, "C19": 1.0}
 MIRI_THOROUGH = {"C01": 4.0, "C02": 8.0, "C05": 2.0, "C09": 4.0, "C11": 4.0, "C12": 2.0, "C13": 8.0, "C18": 8.0, "C19": 2.0}
 ASAN_THOROUGH = {"C01": 20.0, "C02": 20.0, "C05": 10.0, "C07": 10.0, "C08": 10.0, "C09": 20.0, "C11": 20.0, "C12": 10.0, "C13": 20.0, "C18": 20.0}
@@ -604,6 +610,8 @@ def _check(prop, tier, seed, rundir, t_start):
     # random (non-exhaustive) streams are scaled per tier; exhaustive streams always run in full
     native_scale = float(os.environ.get("VERIF_SCALE", "4.0" if tier == "quick" else "8.0"))
     plan = [("dbg", tier, native_scale), ("rel", tier, native_scale)]
+    if prop in ODD_ALLOC_PROPS:
+        plan.append(("odd", tier, 0.5 if tier == "quick" else 2.0))
     if tier == "quick" and prop in MIRI_QUICK:
         plan.append(("miri", "miri", MIRI_QUICK[prop]))
     if tier == "thorough":
@@ -626,7 +634,7 @@ def _check(prop, tier, seed, rundir, t_start):
                 raise
             inconclusive.append("build %s unavailable: %s" % (tag, str(e)[-400:]))
             continue
-        wd = {"dbg": 900, "rel": 900, "miri": 1500, "asan": 1500, "tsan": 1500}[tag]
+        wd = {"dbg": 900, "rel": 900, "odd": 900, "miri": 1500, "asan": 1500, "tsan": 1500}[tag]
         if tier == "thorough":
             wd *= 4
         shards = run_shards(tag, prop, wtier, seed, rundir, scale=scale, watchdog=wd)
@@ -1044,7 +1052,7 @@ def setup():
         return 2
     extract_vectors()
     print("setup: environment probe %s" % ("built" if build_envprobe() else "not available (no C compiler)"))
-    for tag in ("dbg", "rel", "miri"):
+    for tag in ("dbg", "rel", "odd", "miri"):
         try:
             _, dt = build(tag)
             print("setup: built %s in %.1fs" % (tag, dt))
